@@ -79,7 +79,7 @@ func TestVerifC10(t *testing.T) {
 		}
 	})
 
-	n := r.N(5000, 400000)
+	n := r.N(5000, 200000)
 	r.Cases("hist", n, func(i int, id string, rng *vk.Rand) {
 		cfg := vfGenCfg(rng, []string{"set", "set", "set", "int", "int", "mutex", "bool"}, []string{CacheTypeRanked, CacheTypeLRU, CacheTypeNone}, 4)
 		g := newVFGen(rng.Fork(), cfg, c07Rows(cfg), c10Weights)
@@ -88,7 +88,7 @@ func TestVerifC10(t *testing.T) {
 	})
 
 	// ---- two fragments: equal contents <=> equal checksums, whatever the paths
-	np := r.N(1000, 80000)
+	np := r.N(1000, 40000)
 	r.Cases("pair", np, func(i int, id string, rng *vk.Rand) {
 		c10Pair(r, id, rng)
 	})
